@@ -30,15 +30,20 @@ func TestVerifC37(t *testing.T) {
 		nClients := tp.Range(1, 7)
 		nFreeze := tp.Range(0, 3)
 		type op struct {
-			kind int // 0 save 1 load 2 stat 3 remove
-			typ  backend.FileType
+			kind   int // 0 save 1 load 2 stat 3 remove
+			typ    backend.FileType
+			cancel int // > 0: the caller's context is cancelled after that many scheduling points
 		}
 		types := []backend.FileType{backend.PackFile, backend.KeyFile, backend.LockFile, backend.SnapshotFile, backend.IndexFile, backend.ConfigFile, backend.LockFile}
 		plans := make([][]op, nClients)
 		for c := range plans {
 			n := tp.Range(1, 5)
 			for k := 0; k < n; k++ {
-				plans[c] = append(plans[c], op{tp.Choose(4), types[tp.Choose(len(types))]})
+				o := op{kind: tp.Choose(4), typ: types[tp.Choose(len(types))]}
+				if tp.Choose(4) == 3 {
+					o.cancel = 1 + tp.Choose(6)
+				}
+				plans[c] = append(plans[c], o)
 			}
 		}
 		r.Set("connections", conns)
@@ -96,6 +101,20 @@ func TestVerifC37(t *testing.T) {
 							mu.Lock()
 							invokedLock[simrt.GName()] = true
 							mu.Unlock()
+						}
+						ctx := ctx
+						if o.cancel > 0 {
+							// somebody cancels this caller's context while the operation waits or runs
+							cctx, cancel := context.WithCancel(ctx)
+							ctx = cctx
+							n := o.cancel
+							s.Go(fmt.Sprintf("cancel%d.%d", ci, k), nil, func() {
+								for i := 0; i < n; i++ {
+									simrt.Park("ctl", "before-cancel", nil)
+								}
+								s.Count("fault:caller-context-cancelled")
+								cancel()
+							})
 						}
 						switch o.kind {
 						case 0:
